@@ -18,6 +18,7 @@ type tsArm struct {
 	Entry  *ssa.BasicBlock
 	Test   ssa.Instruction
 	Method string // for single-method interfaces
+	Fn     *ssa.Function // function containing the arm (Update, or the helper Update delegates the text to)
 }
 
 func (a tsArm) name() string {
@@ -32,11 +33,19 @@ func (a tsArm) name() string {
 
 // typeSwitchArms extracts, in test order, the chain of dynamic-type tests on a value loaded from field f.
 func typeSwitchArms(fn *ssa.Function, f *types.Var) []tsArm {
+	return typeSwitchArmsBy(fn, func(v ssa.Value) bool { fl, _ := loadedField(v); return fl == f })
+}
+
+// typeSwitchArmsOnParam: the chain of dynamic-type tests on a parameter.
+func typeSwitchArmsOnParam(fn *ssa.Function, par *ssa.Parameter) []tsArm {
+	return typeSwitchArmsBy(fn, func(v ssa.Value) bool { return v == ssa.Value(par) })
+}
+
+func typeSwitchArmsBy(fn *ssa.Function, isRaw func(ssa.Value) bool) []tsArm {
 	var arms []tsArm
 	if len(fn.Blocks) == 0 {
 		return nil
 	}
-	isRaw := func(v ssa.Value) bool { fl, _ := loadedField(v); return fl == f }
 	// find the first block whose terminator tests the raw value
 	var cur *ssa.BasicBlock
 	for _, b := range fn.Blocks {
@@ -66,11 +75,12 @@ func typeSwitchArms(fn *ssa.Function, f *types.Var) []tsArm {
 			}
 		}
 		arm.Entry = cur.Succs[tIdx]
+		arm.Fn = fn
 		arms = append(arms, arm)
 		cur = cur.Succs[fIdx]
 	}
-	if cur != nil {
-		arms = append(arms, tsArm{Kind: "default", Entry: cur})
+	if cur != nil && len(arms) > 0 {
+		arms = append(arms, tsArm{Kind: "default", Entry: cur, Fn: fn})
 	}
 	return arms
 }
@@ -128,7 +138,49 @@ func runC01(c *Ctx) {
 	}
 	un := FuncName(update)
 	arms := typeSwitchArms(update, raw)
-	r.Floor("R01.1", "dispatch arms in Update", len(arms), 8)
+	// the dispatch may continue in a helper that Update hands the item to and whose result becomes the text
+	var helper *ssa.Function
+	var helperCall *ssa.Call
+	eachInstr(update, func(in ssa.Instruction) {
+		call, ok := in.(*ssa.Call)
+		if !ok || helper != nil {
+			return
+		}
+		f := call.Call.StaticCallee()
+		if f == nil || !inModule(f) || len(f.Blocks) == 0 || f.Signature.Results().Len() != 1 || !isStringType(f.Signature.Results().At(0).Type()) {
+			return
+		}
+		argIdx := -1
+		for i, a := range call.Call.Args {
+			if fl, _ := loadedField(unwrap(a, true)); fl == raw {
+				argIdx = i
+			}
+		}
+		if argIdx < 0 {
+			return
+		}
+		// its result is stored as the text
+		stored := false
+		for _, rr := range referrersOf(call) {
+			if st, ok := rr.(*ssa.Store); ok && st.Val == ssa.Value(call) {
+				if fl, _ := storeField(st.Addr); fl == str {
+					stored = true
+				}
+			}
+		}
+		if stored {
+			if ha := typeSwitchArmsOnParam(f, f.Params[argIdx]); len(ha) > 0 {
+				helper, helperCall = f, call
+				// the helper's arms continue where Update's chain ends (its default arm)
+				if n := len(arms); n > 0 && arms[n-1].Kind == "default" {
+					arms = arms[:n-1]
+				}
+				arms = append(arms, ha...)
+			}
+		}
+	})
+	_ = helperCall
+	r.Floor("R01.1", "dispatch arms on the item", len(arms), 8)
 
 	// ---- R01.1
 	want := map[string]bool{}
@@ -202,6 +254,25 @@ func runC01(c *Ctx) {
 	}
 	nstores := 0
 	for _, a := range arms {
+		if a.Fn != update {
+			// an arm of the helper: its text is what it returns
+			nret := 0
+			for _, b := range a.Fn.Blocks {
+				if !a.Entry.Dominates(b) {
+					continue
+				}
+				for _, in := range b.Instrs {
+					if ret, isRet := in.(*ssa.Return); isRet {
+						nret++
+						nstores++
+						ok, why := armSourceOK(a, results(ret)[0], raw, str)
+						r.Check("R01.2", FuncName(a.Fn), fmt.Sprintf("%s: returned text #%d is the documented form", a.name(), nret), ret.Pos(), ok, why)
+					}
+				}
+			}
+			r.Check("R01.3", FuncName(a.Fn), a.name()+": text produced on every path", a.Entry.Instrs[0].Pos(), nret > 0, "the arm never returns a text")
+			continue
+		}
 		stores := strStoresIn(a.Entry)
 		nstores += len(stores)
 		// R01.3
@@ -216,11 +287,22 @@ func runC01(c *Ctx) {
 		r.Check("R01.3", un, a.name()+": text assigned on every path", a.Entry.Instrs[0].Pos(), ok, why)
 		// R01.2
 		for i, st := range stores {
+			if helper != nil && st.Val == ssa.Value(helperCall) {
+				continue // the text computed by the helper's arms, judged there
+			}
 			ok, why := armSourceOK(a, st.Val, raw, str)
 			r.Check("R01.2", un, fmt.Sprintf("%s: stored text #%d is the documented form", a.name(), i+1), st.Pos(), ok, why)
 		}
 	}
-	r.Floor("R01.2", "stores to the text in dispatch arms", nstores, 8)
+	if helper != nil {
+		// the helper's result is stored as the text on every path that reaches it
+		ok, why := mustStoreBeforeLeaving(helperCall.Block(), func(in ssa.Instruction) bool {
+			st, is := in.(*ssa.Store)
+			return is && st.Val == ssa.Value(helperCall)
+		})
+		r.Check("R01.3", un, "the text computed by "+FuncName(helper)+" is assigned on every path", helperCall.Pos(), ok, why)
+	}
+	r.Floor("R01.2", "text values produced by dispatch arms", nstores, 8)
 
 	// ---- R01.4 path enumeration
 	c01Emptiness(c, update, recv, str, empty)
@@ -272,11 +354,11 @@ func runC01(c *Ctx) {
 			} else {
 				return
 			}
-			if !derivesFromField(rv, raw, 0) {
+			if !derivesFromField(rv, raw, 0) && !(fn == helper && helper != nil && derivesFromParam(rv, helper, 0)) {
 				return
 			}
 			ninv++
-			r.Check("R01.6", FuncName(fn), "method call on the stored item: "+calleeDesc(cc), in.Pos(), fn == update, "the item is consulted outside Update: a mutated item would show through without an update")
+			r.Check("R01.6", FuncName(fn), "method call on the stored item: "+calleeDesc(cc), in.Pos(), fn == update || fn == helper, "the item is consulted outside Update: a mutated item would show through without an update")
 		})
 		// callers of Update
 		eachInstr(fn, func(in ssa.Instruction) {
@@ -286,7 +368,7 @@ func runC01(c *Ctx) {
 			}
 		})
 	}
-	r.Floor("R01.6", "method calls on the stored item (in Update)", ninv, 5)
+	r.Floor("R01.6", "method calls on the stored item", ninv, 3)
 	// every implicit recomputation (updateCache) is guarded by the mustCalc flag of the same cell
 	if updateCache != nil {
 		for _, fn := range c.LibFuncs() {
@@ -320,7 +402,8 @@ func runC01(c *Ctx) {
 		}
 		for i, ret := range returnsOf(fn) {
 			v := results(ret)[0]
-			r.Check("R01.6", FuncName(fn), fmt.Sprintf("return #%d is the cached %s", i+1, acc.f.Name()), ret.Pos(), recvFieldRead(fn, v, acc.f), v.String())
+			fl, _ := loadedField(v)
+			r.Check("R01.6", FuncName(fn), fmt.Sprintf("return #%d is the cached %s of a cell", i+1, acc.f.Name()), ret.Pos(), fl == acc.f, v.String())
 		}
 	}
 	if emptyFn := c.Method(cell, true, "Empty"); emptyFn != nil {
@@ -481,7 +564,9 @@ func varargsAre(sl ssa.Value, f *types.Var) bool {
 					if fl, _ := loadedField(v); fl == f {
 						return true
 					}
-					// the type-switch variable of the default arm is the raw value itself
+					if _, isPar := v.(*ssa.Parameter); isPar {
+						return true // the helper's own item parameter
+					}
 					return false
 				}
 			}
@@ -550,6 +635,7 @@ func c01Emptiness(c *Ctx, update *ssa.Function, recv *ssa.Parameter, str, empty 
 	}
 	var outs []res
 	npaths := 0
+	decided := map[ssa.Value]bool{}
 	var walk func(b *ssa.BasicBlock, prev *ssa.BasicBlock, st state)
 	walk = func(b *ssa.BasicBlock, prev *ssa.BasicBlock, st state) {
 		if npaths > 20000 {
@@ -595,6 +681,25 @@ func c01Emptiness(c *Ctx, update *ssa.Function, recv *ssa.Parameter, str, empty 
 				outs = append(outs, res{st, x})
 				return
 			case *ssa.If:
+				if v, seen := decided[x.Cond]; seen {
+					// the same condition value was already tested on this path: only one side is feasible
+					if v {
+						walk(b.Succs[0], b, st)
+					} else {
+						walk(b.Succs[1], b, st)
+					}
+					return
+				}
+				if u, isU := x.Cond.(*ssa.UnOp); isU && u.Op == token.NOT {
+					if v, seen := decided[u.X]; seen {
+						if !v {
+							walk(b.Succs[0], b, st)
+						} else {
+							walk(b.Succs[1], b, st)
+						}
+						return
+					}
+				}
 				tst, tsf := st, st
 				if isEmptyTest, neg := strEmptyTest(x.Cond, recv, str); isEmptyTest {
 					if !neg {
@@ -603,8 +708,11 @@ func c01Emptiness(c *Ctx, update *ssa.Function, recv *ssa.Parameter, str, empty 
 						tst.str, tsf.str = refine(st.str, false), refine(st.str, true)
 					}
 				}
+				decided[x.Cond] = true
 				walk(b.Succs[0], b, tst)
+				decided[x.Cond] = false
 				walk(b.Succs[1], b, tsf)
+				delete(decided, x.Cond)
 				return
 			}
 		}
@@ -677,4 +785,34 @@ func staticCalleeOfValue(v ssa.Value) *ssa.Function {
 		return nil
 	}
 	return call.Call.StaticCallee()
+}
+
+// derivesFromParam: v is obtained from a parameter of fn by type assertion / extraction / phi.
+func derivesFromParam(v ssa.Value, fn *ssa.Function, depth int) bool {
+	if depth > 8 {
+		return false
+	}
+	switch x := v.(type) {
+	case *ssa.Parameter:
+		for _, p := range fn.Params {
+			if p == x {
+				return true
+			}
+		}
+	case *ssa.Extract:
+		return derivesFromParam(x.Tuple, fn, depth+1)
+	case *ssa.TypeAssert:
+		return derivesFromParam(x.X, fn, depth+1)
+	case *ssa.ChangeInterface:
+		return derivesFromParam(x.X, fn, depth+1)
+	case *ssa.MakeInterface:
+		return derivesFromParam(x.X, fn, depth+1)
+	case *ssa.Phi:
+		for _, e := range x.Edges {
+			if derivesFromParam(e, fn, depth+1) {
+				return true
+			}
+		}
+	}
+	return false
 }
